@@ -395,6 +395,12 @@ End Inscriptions.
 
 (** * Non-vacuity of the flow theorems: a listing, its acceptance (standard and two dummies), a bid and its
     acceptance, by evaluation of the model with a signer that returns a 107-byte script *)
+Fixpoint list_n_eqb (a b : list N) : bool :=
+  match a, b with
+  | [], [] => true
+  | x :: a', y :: b' => (x =? y) && list_n_eqb a' b'
+  | _, _ => false
+  end.
 Definition ex_p2pkh (b : byte) : bytes := [x76; xa9; x14] ++ repeat_byte 20 b ++ [x88; xac].
 Definition ex_signer : tx -> N -> N -> option bytes := fun _ _ _ => Some (repeat_byte 107 x01).
 Definition ex_quote : quote := mkQuote (Some (mkRate 50 1000)) (Some (mkRate 50 1000)).
@@ -409,8 +415,8 @@ Example C20_listing_flow_example :
       (tx_version L =? 1) && (tx_lock L =? 0) &&
       match accept_listing ex_signer (Some ex_ord) L ex_funding (ex_p2pkh x04) (ex_p2pkh x05) (ex_p2pkh x06) ex_quote with
       | Done A =>
-          (* the UTXO worth more than the price moved to the front; dummy 500, seller 1000, buyer 1; fee 100 left *)
-          list_eqb N.eqb (map in_sats (tx_ins A)) [1500; 1; 100] && list_eqb N.eqb (map out_sats (tx_outs A)) [500; 1000; 1] &&
+          (* the UTXO worth more than the price moved to the front; dummy 500, seller 1000, buyer 1, change 71; fee 29 *)
+          list_n_eqb (map in_sats (tx_ins A)) [1500; 1; 100] && list_n_eqb (map out_sats (tx_outs A)) [500; 1000; 1; 71] &&
           match is_fee_paid_enough A ex_quote with FOk true => true | _ => false end
       | _ => false
       end &&
@@ -423,7 +429,7 @@ Example C20_listing_flow_example :
               [mkUtxo (repeat_byte 32 xbb) 1 (ex_p2pkh x02) 10; mkUtxo (repeat_byte 32 xbb) 2 (ex_p2pkh x02) 10;
                mkUtxo (repeat_byte 32 xcc) 0 (ex_p2pkh x02) 1100]
               (ex_p2pkh x04) (ex_p2pkh x05) (ex_p2pkh x06) ex_quote with
-      | Done A => list_eqb N.eqb (map out_sats (tx_outs A)) [20; 1; 1000; 57]
+      | Done A => list_n_eqb (map out_sats (tx_outs A)) [20; 1; 1000; 64]
       | _ => false end
   | _ => false
   end = true.
@@ -434,7 +440,7 @@ Example C20_bid_flow_example :
           ex_quote (ex_p2pkh x07) (ex_p2pkh x08) with
   | Done P =>
       match accept_bid ex_signer ex_ord 1000 ex_quote P (ex_p2pkh x03) with
-      | Done A => list_eqb N.eqb (map in_sats (tx_ins A)) [1500; 1; 100] && list_eqb N.eqb (map out_sats (tx_outs A)) [500; 1000; 1]
+      | Done A => list_n_eqb (map in_sats (tx_ins A)) [1500; 1; 100] && list_n_eqb (map out_sats (tx_outs A)) [500; 1000; 1; 70]
       | _ => false end
   | _ => false end = true /\
   (* the window the repair closed: 23 satoshis pay for the bid without, but not with, the seller's signature *)
